@@ -559,7 +559,7 @@ Proof. intros oi. unfold v_cb_action. v_lp_tac; apply v_lp_remove_observer. Qed.
 (** The log entry of a callback, as a function of the state at callback time. *)
 Definition v_cb_entry (oi : nat) (e : ent) (s : W) : list Z :=
   [100%Z; Zn oi] ++ Zent e ++ [Zb (is_locked s); Zb (alive s e); Zn (count_in_world s e)] ++
-  (if alive s e then match snapshot_entity s e with Some l => l | None => [] end else []).
+  (if alive s e then match snapshot_entity s e with Some l => l | None => [] end else []) ++ world_view s.
 
 Lemma v_lockM_ok : forall s b l', lock_lock (w_lock s) = Some (b, l') -> lockM s = Ok b (s <| w_lock := l' |>).
 Proof. intros s b l' H. unfold lockM, bind, get. rewrite H. reflexivity. Qed.
@@ -583,6 +583,8 @@ Proof.
   unfold bind at 1 in H. unfold get at 1 in H.
   assert (C : count_in_world (s <| w_lock := l' |>) e = count_in_world s e) by reflexivity.
   rewrite C in H. clear C.
+  assert (C : world_view (s <| w_lock := l' |>) = world_view s) by reflexivity.
+  rewrite C in H. clear C.
   destruct (lock_unlock (w_lock (s <| w_lock := l' |>)) b) as [l''|] eqn:LU.
   2:{ rewrite (sa_bind_err (v_unlockM_err (s <| w_lock := l' |>) b LU)) in H. discriminate. }
   rewrite (sa_bind_ok (v_unlockM_ok (s <| w_lock := l' |>) b l'' LU)) in H.
@@ -597,8 +599,8 @@ Proof.
     rewrite E0. reflexivity. }
   unfold v_cb_entry. destruct (alive s e).
   - destruct (snapshot_entity s e) as [snap|]; [|discriminate]. unfold of_opt, ret at 1 in H.
-    eapply T; [|exact H]. reflexivity.
-  - unfold ret at 1 in H. eapply T; [|exact H]. reflexivity.
+    eapply (T (snap ++ world_view s)); [|exact H]. reflexivity.
+  - unfold ret at 1 in H. eapply (T ([] ++ world_view s)); [|exact H]. reflexivity.
 Qed.
 
 Lemma v_count_in_world_ext : forall s1 s2 e, w_archs s2 = w_archs s1 -> w_tables s2 = w_tables s1 ->
@@ -609,8 +611,8 @@ Lemma v_cb_entry_ext : forall oi e s1 s2, storage_same s1 s2 -> w_lock s2 = w_lo
   v_cb_entry oi e s2 = v_cb_entry oi e s1.
 Proof.
   intros oi e s1 s2 (E1 & E2 & E3 & E4 & E5 & E6 & E7 & _) EL.
-  unfold v_cb_entry, is_locked, alive, snapshot_entity.
-  rewrite (v_count_in_world_ext s1 s2 e E6 E7), EL, E3, E4, E7. reflexivity.
+  unfold v_cb_entry, is_locked, alive, snapshot_entity, world_view.
+  rewrite (v_count_in_world_ext s1 s2 e E6 E7), EL, E3, E4, E6, E7. reflexivity.
 Qed.
 
 Theorem run_callback_log_storage : forall oi e s1 s2,
